@@ -453,7 +453,7 @@ func (g *gctx) action(typ string) *Action {
 		}
 	case "call_webhook":
 		a.Extra["method"] = hx.Pick(r, []string{"GET", "POST"})
-		url := &TField{Key: "url", Vals: []string{hx.Pick(r, []string{"http://hook.io/w", "http://hook.io/?q=@fields.nick", "@globals.org_name", "", "http://hook.io/@(1+"})}, Shape: "string"}
+		url := &TField{Key: "url", Vals: []string{hx.Pick(r, []string{"http://hook.io/w", "http://hook.io/?q=@fields.nick", "@globals.org_name", "http://hook.io/@(1+"})}, Shape: "string"}
 		hd := &TField{Key: "headers", Shape: "map"}
 		if r.Bool() {
 			hd.MapKeys = []string{"X-Org"}
